@@ -131,9 +131,11 @@ package tax
 //@   ensures [shape] t != nil ==> nt != nil && fresh(nt) && nt.Sum == t.Sum && nt.sum == t.sum && len(nt.Categories) == len(t.Categories) && fresh(nt.Categories)
 //@   ensures [deep] t != nil ==> (forall i int :: 0 <= i && i < len(t.Categories) ==> nt.Categories[i] != nil && fresh(nt.Categories[i]) && catCopy(t.Categories[i], nt.Categories[i]))
 //@   ensures [distinct] t != nil ==> (forall i int, k int :: 0 <= i && i < k && k < len(t.Categories) ==> nt.Categories[i] != nt.Categories[k])
+//@   ensures [rowsdistinct] t != nil ==> (forall i int, j int, k int, l int :: 0 <= i && i < len(t.Categories) && 0 <= j && j < len(t.Categories[i].Rates) && 0 <= k && k < len(t.Categories) && 0 <= l && l < len(t.Categories[k].Rates) && (i != k || j != l) ==> nt.Categories[i].Rates[j] != nt.Categories[k].Rates[l])
 //@   loop 1 invariant nt != nil && fresh(nt) && len(nt.Categories) == len(t.Categories) && fresh(nt.Categories)
 //@   loop 1 invariant forall i int :: 0 <= i && i < idx ==> nt.Categories[i] != nil && fresh(nt.Categories[i]) && catCopy(t.Categories[i], nt.Categories[i])
 //@   loop 1 invariant forall i int, k int :: 0 <= i && i < k && k < idx ==> nt.Categories[i] != nt.Categories[k]
+//@   loop 1 invariant forall i int, j int, k int, l int :: 0 <= i && i < idx && 0 <= j && j < len(t.Categories[i].Rates) && 0 <= k && k < idx && 0 <= l && l < len(t.Categories[k].Rates) && (i != k || j != l) ==> nt.Categories[i].Rates[j] != nt.Categories[k].Rates[l]
 //@   loop 2 invariant nt != nil && fresh(nt) && len(nt.Categories) == len(t.Categories) && fresh(nt.Categories)
 //@   loop 2 invariant forall i int :: 0 <= i && i < idx1 ==> nt.Categories[i] != nil && fresh(nt.Categories[i]) && catCopy(t.Categories[i], nt.Categories[i])
 //@   loop 2 invariant forall i int, k int :: 0 <= i && i < k && k <= idx1 ==> nt.Categories[i] != nt.Categories[k]
@@ -141,6 +143,9 @@ package tax
 //@   loop 2 invariant (t.Categories[idx1].Surcharge == nil ==> nt.Categories[idx1].Surcharge == nil) && (t.Categories[idx1].Surcharge != nil ==> nt.Categories[idx1].Surcharge != nil && fresh(nt.Categories[idx1].Surcharge) && *nt.Categories[idx1].Surcharge == *t.Categories[idx1].Surcharge)
 //@   loop 2 invariant len(nt.Categories[idx1].Rates) == len(t.Categories[idx1].Rates) && fresh(nt.Categories[idx1].Rates)
 //@   loop 2 invariant forall j int :: 0 <= j && j < idx ==> nt.Categories[idx1].Rates[j] != nil && fresh(nt.Categories[idx1].Rates[j]) && rowCopy(t.Categories[idx1].Rates[j], nt.Categories[idx1].Rates[j])
+//@   loop 2 invariant forall i int, j int, k int, l int :: 0 <= i && i < idx1 && 0 <= j && j < len(t.Categories[i].Rates) && 0 <= k && k < idx1 && 0 <= l && l < len(t.Categories[k].Rates) && (i != k || j != l) ==> nt.Categories[i].Rates[j] != nt.Categories[k].Rates[l]
+//@   loop 2 invariant forall i int, j int, l int :: 0 <= i && i < idx1 && 0 <= j && j < len(t.Categories[i].Rates) && 0 <= l && l < idx ==> nt.Categories[i].Rates[j] != nt.Categories[idx1].Rates[l]
+//@   loop 2 invariant forall j int, l int :: 0 <= j && j < l && l < idx ==> nt.Categories[idx1].Rates[j] != nt.Categories[idx1].Rates[l]
 //
 // ---- C01 / C03: the rounding rule applied at each documented point
 //@ spec upS(a num.Amount, e int) num.Amount = ite(e > a.exp, num.rescaleS(a, e), a)
